@@ -75,8 +75,18 @@ MODEL_ACTIONS = ["DeriveCertReqs", "Dial", "ProxyHandshake", "Tunnel", "BuildCon
                  "Handshake", "AssertFingerprint", "MatchHostname", "NoPostHandshakeCheck", "ComputeIsVerified",
                  "Warn", "SendRequest"]
 CLASSES = ["SSLErrorBeforeRequest", "SentVerified", "SentUnverifiedWarned", "ConfigRefused"]
-NWORKERS = 16
+NWORKERS = int(os.environ.get("VERIF_JOBS") or 0) or os.cpu_count() or 4   # size of every process pool
 QUICK_POINTS = 4096
+
+
+def tagged_strings(out, tag):
+    """Payloads of TLC lines  "tag|payload"  (PrintT of a plain string: never wrapped by TLC)."""
+    pre = '"' + tag + "|"
+    res = []
+    for ln in out.splitlines():
+        if ln.startswith(pre) and ln.endswith('"'):
+            res.append(ln[len(pre):-1].replace('\\\\', '\x00').replace('\\"', '"').replace('\x00', '\\'))
+    return res
 
 
 # ------------------------------------------------------------------------------------ selection
@@ -163,7 +173,12 @@ def _abstract(o):
 
 
 def variant_of(idx, seed):
-    return (idx * 7 + seed * 5) % 12
+    """API / spelling variant of a point (0..11): a hash, so that it is independent of every factor."""
+    x = (idx * 2654435761 + (seed + 1) * 40503) & 0xFFFFFFFF
+    x ^= x >> 15
+    x = (x * 2246822519) & 0xFFFFFFFF
+    x ^= x >> 13
+    return x % 12
 
 
 def emit_points(spec):
@@ -174,18 +189,17 @@ def emit_points(spec):
     r = tlc.run("MC_TLSVerify", cfg, workers=1, files=files, env={"SEL_FILE": "sel.json"}, timeout=3600, heap="2g")
     if r.violated:
         raise tlc.MachineryError(f"emission run reported {r.violated}")
-    pts = tlc.tagged_json(r.out, "PT")
-    return pts
+    return [json.loads(x) for x in tagged_strings(r.out, "PT")]
 
 
 def validate(traces):
     """TLC batch validation.  Returns {id: (hard clause, drift clause)}."""
     r = tlc.run("TLSVerify_Trace", TRACE_CFG, workers=1, files={"traces.json": json.dumps(traces)},
                 env={"TRACE_FILE": "traces.json"}, timeout=3600, heap="2g")
-    ver = tlc.tagged_tuples(r.out, "VERDICT")
+    ver = [x.split("|") for x in tagged_strings(r.out, "VERDICT")]
     if len(ver) != len(traces) or any(len(v) != 3 for v in ver):
         raise tlc.MachineryError(f"trace validation produced {len(ver)} verdicts for {len(traces)} traces\n{r.out[-1500:]}")
-    return {v[0]: (v[1], v[2]) for v in ver}, r
+    return {int(v[0]): (v[1], v[2]) for v in ver}, r
 
 
 def _execute(args):
@@ -198,15 +212,19 @@ def _execute(args):
         if pt["p"]["backend"] != backend:
             raise tlc.MachineryError(f"worker for backend {backend} received a point for {pt['p']['backend']}")
         v = variant_of(pt["idx"], seed)
+        # (a caller-supplied pyOpenSSL context cannot be used for a second connection -- finding C07-F2 --
+        # so the one-retry API variant is exercised there only where the Rules demand a block)
+        no_retry = pt["p"]["backend"] == "pyopenssl" and pt["p"]["ctx"] != "none" and pt["expect"] != "block"
         for _attempt in range(3):
-            o = c07drv.run_point(pt["p"], v)
+            o = c07drv.run_point(pt["p"], v, no_retry=no_retry)
             # no scenario of the lattice can legitimately time out (the party always answers or closes):
             # a client-side timeout is an overloaded machine; retry, then report it as a harness stall
             if o["joined"] and not any("timeout" in e.lower() for e in o["exc"]):
                 break
         else:
             o["joined"] = False
-        res.append({"idx": pt["idx"], "raw": _abstract(o), "variant": v, "exc_msg": o.get("exc_msg", "")})
+        res.append({"idx": pt["idx"], "raw": _abstract(o), "variant": v, "exc_msg": o.get("exc_msg", ""),
+                    "api": o.get("api", {}), "no_retry": no_retry})
     if c07drv._AUTH is not None:
         c07drv._AUTH.close()
         c07drv._AUTH = None
@@ -216,7 +234,8 @@ def _execute(args):
 def _judge(pts, results, verdicts):
     """Tally one batch: TLC's verdict per trace + bookkeeping (no verdict is computed here)."""
     out = {"emitted": len(pts), "ran": len(results), "bad": [], "drift": [], "expect": {}, "outcome": {}, "real": {},
-           "nontrivial": [], "samples": [], "by": {}, "ndrift": 0}
+           "nontrivial": [], "samples": [], "by": {}, "ndrift": 0, "nbad": 0}
+    kept = {}
     byidx = {pt["idx"]: pt for pt in pts}
     if len(byidx) != len(pts) or len(results) != len(pts):
         raise tlc.MachineryError(f"{len(pts)} points emitted, {len(byidx)} distinct, {len(results)} executed")
@@ -236,9 +255,15 @@ def _judge(pts, results, verdicts):
         case = {"kind": "point", "idx": idx, "point": pt["p"], "variant": res["variant"], "expect": pt["expect"],
                 "demanded": pt["demanded"], "failed": pt["failed"], "model": pt["model"], "observed": raw,
                 "mode": pt["mode"],
-                "exc_msg": res["exc_msg"]}
+                "exc_msg": res["exc_msg"], "api": res["api"], "no_retry": res["no_retry"]}
         if hard != "ok":
-            out["bad"].append((hard, case))
+            # keep a few cases of EVERY distinct input class (never let one class crowd out another)
+            p = pt["p"]
+            key = (hard, p["route"], p["backend"], p["ctx"], p["reqs"], p["fp"], p["ah"], tuple(raw["exc"][:1]))
+            kept[key] = kept.get(key, 0) + 1
+            out["nbad"] += 1
+            if kept[key] <= 2:
+                out["bad"].append((hard, case))
         elif drift != "ok" and len(out["drift"]) < 20:
             out["drift"].append((drift, case))
         if drift != "ok":
@@ -246,7 +271,6 @@ def _judge(pts, results, verdicts):
         if len(out["samples"]) < 2 and pt["expect"] == "block":
             out["samples"].append({"point": pt["p"], "expect": pt["expect"], "demanded": pt["demanded"],
                                    "failed": pt["failed"], "observed": raw, "verdict": [hard, drift]})
-    out["bad"] = out["bad"][:25]
     return out
 
 
@@ -268,7 +292,10 @@ def facts_of(clause, case):
             "ctx": p["ctx"], "ah": p["ah"], "expect": case.get("expect"), "mode": case.get("mode"),
             "warned": bool(obs["warned"]),
             "reported_verified": any(x["at"] == "request" and x["v"] for x in obs["seen"]),
-            "proxy_reported_verified": any(x["at"] == "request" and x["pv"] == "true" for x in obs["seen"])}
+            "proxy_reported_verified": any(x["at"] == "request" and x["pv"] == "true" for x in obs["seen"]),
+            "sent": any(c["req"] for c in obs["conns"]), "closed": all(c["eof"] for c in obs["conns"]),
+            "retried": case.get("api", {}).get("retries") == 1, "exc_head": (obs["exc"] or ["none"])[0],
+            "context_reuse_refused": "already been used to create a Connection" in case.get("exc_msg", "")}
 
 
 def report_bad(rep, findings, clause, case):
@@ -294,7 +321,7 @@ def stage1(rep, routes, hosts, live=False, defects=False):
                             defects="AllKnownDefects" if defects else "NoDefects",
                             strict=MODULO_KNOWN if defects else STRICT)
     r = tlc.run("MC_TLSVerify", cfg, workers="auto", coverage=True, files={"sel.json": "[]"},
-                env={"SEL_FILE": "sel.json"}, heap="4g", timeout=7200)
+                env={"SEL_FILE": "sel.json"}, heap="3g", timeout=7200)
     rep.add_tlc(f"MC_TLSVerify Routes={routes} Hosts={hosts} KnownDefects={'all' if defects else '{}'}"
                 + (" +liveness" if live else ""), r)
     if r.violated:
@@ -319,7 +346,7 @@ def stage1(rep, routes, hosts, live=False, defects=False):
             raise tlc.MachineryError("stage 1 reached an anomalous outcome without an invariant failing")
         if defects and anomalous == 0:
             raise tlc.MachineryError("the Model with KnownDefects does not reproduce the recorded defect")
-    lat = tlc.tagged_json(r.out, "LATTICE")
+    lat = [json.loads(x) for x in tagged_strings(r.out, "LATTICE")]
     if not lat:
         raise tlc.MachineryError("MC_TLSVerify did not print its LATTICE line")
     key = f"{routes}/{hosts}/{'asis' if defects else 'design'}"
@@ -412,6 +439,7 @@ def run(rep):
     rep.extra["real_outcomes"] = tall["real"]
     rep.extra["rejecting_component_predicted"] = tall["by"]
     rep.extra["drift_total"] = ndrift
+    rep.extra["traces_with_failing_clause"] = sum(o["nbad"] for o in outs)
     rep.extra["points_emitted"] = emitted
     for c in CLASSES:
         if tall["outcome"].get(c, 0) == 0:
@@ -437,9 +465,9 @@ def replay(rep, path):
     rep.nontrivial.add(case["idx"])
     rep.states = rep.states or 1
     rep.transitions = rep.transitions or 1
-    hard, drift, fresh = out
+    hard, drift, fresh, api, msg = out
     if hard != "ok":
-        newcase = dict(case, observed=fresh)
+        newcase = dict(case, observed=fresh, api=api, exc_msg=msg)
         report_bad(rep, findings, hard, newcase)
     elif drift != "ok":
         rep.drift.append(f"{drift}: point {case['idx']}")
@@ -449,13 +477,13 @@ def _replay_worker(args):
     case, backend = args
     from . import c07drv
     c07drv.set_backend(backend)
-    o = c07drv.run_point(case["point"], case.get("variant", 0))
+    o = c07drv.run_point(case["point"], case.get("variant", 0), no_retry=case.get("no_retry", False))
     raw = _abstract(o)
     verdicts, _ = validate([{"id": case["idx"], "p": case["point"], "o": raw}])
     hard, drift = verdicts[case["idx"]]
     if c07drv._AUTH is not None:
         c07drv._AUTH.close()
-    return hard, drift, raw
+    return hard, drift, raw, o.get("api", {}), o.get("exc_msg", "")
 
 
 def _replay_one(case, backend):
